@@ -194,9 +194,19 @@ def make_view(ds, case, seed='case', call=None):
 def read(view, case):
   """Reads the view; never more than expected+3 batches (mutants may not end)."""
   want, infinite = expected_batches(case)
-  if infinite:
-    return list(itertools.islice(iter(view), want))
-  return list(itertools.islice(iter(view), want + 3))
+  it = itertools.islice(iter(view), want if infinite else want + 3)
+  if not case.get('consumer_overwrites'):
+    return list(it)
+  # A consumer that works on its batches in place (normalises, masks, zeroes
+  # what it has used): every batch is the consumer's own copy -- what it writes
+  # there reaches neither the dataset nor the batches still to come.
+  out = []
+  for batch in it:
+    out.append({k: np.array(v, copy=True) for k, v in batch.items()})
+    for v in batch.values():
+      if isinstance(v, np.ndarray) and v.flags.writeable and v.size:
+        v[...] = -1
+  return out
 
 
 def check_batches(case, batches):
@@ -530,7 +540,8 @@ def hp_strategy(draw, tier, shuffle='any', seeds='any'):
   case = {'n': n, 'batch_size': b, 'num_epochs': epochs, 'num_steps': steps,
           'drop_remainder': drop, 'skip_shuffle': skip, 'seed': seed,
           'call': pick(draw, CALLS), 'extra': pick(draw, [False, False, True]),
-          'from_parent': pick(draw, [0, 0, 0, 3, 7])}
+          'from_parent': pick(draw, [0, 0, 0, 3, 7]),
+          'consumer_overwrites': pick(draw, [False, False, True])}
   if epochs is None and steps is None:
     if pick(draw, [0, 1]):
       c = -(-pick(draw, [1, 2, 3, 4]) * n // b)
@@ -568,7 +579,8 @@ def reshuffle_strategy(draw, tier):
           'drop_remainder': drop, 'skip_shuffle': False, 'seed': seed,
           'seed2': seed2, 'call': pick(draw, CALLS),
           'extra': pick(draw, [False, False, False, True]),
-          'from_parent': pick(draw, [0, 0, 0, 3, 7])}
+          'from_parent': pick(draw, [0, 0, 0, 3, 7]),
+          'consumer_overwrites': pick(draw, [False, False, True])}
   nb = -(-total // b) + pick(draw, [0, 1, 2])
   if mode == 'epochs':
     # one more pass when the remainder is dropped, so W windows stay complete
@@ -591,6 +603,8 @@ def labels(case):
   e, s = case['num_epochs'], case['num_steps']
   want, infinite = expected_batches(case)
   ls = []
+  if case.get('consumer_overwrites'):
+    ls.append('consumer_overwrites_its_batches_in_place')
   if b > 2 * n:
     ls.append('B>2N')
   elif b > n:
